@@ -254,6 +254,25 @@ func structuredSeeds(r *rand.Rand) []seed {
 		add("gen:odf", mkZip([]zipEntry{{"mimetype", []byte(mt), false}, {"content.xml", randText(r, 50), true}}))
 	}
 	add("gen:crx", cat([]byte("Cr24"), []byte{2, 0, 0, 0, 4, 0, 0, 0, 3, 0, 0, 0}, randBytes(r, 7), mkZip([]zipEntry{{"manifest.json", []byte("{}"), false}})))
+	// Chrome extension headers with the zip signature stamped at every offset an arithmetic slip could look at:
+	// 16, 16+key, 16+sig, 16+key+sig - alone and in pairs (the real payload offset is the last one)
+	for _, ks := range [][2]int{{294, 128}, {20, 8}, {8, 20}, {0, 12}, {12, 0}, {300, 300}} {
+		key, sg := ks[0], ks[1]
+		offs := []int{16, 16 + key, 16 + sg, 16 + key + sg}
+		for mask := 1; mask < 16; mask++ {
+			h := cat([]byte("Cr24"), []byte{2, 0, 0, 0}, le32(uint32(key)), le32(uint32(sg)), bytes.Repeat([]byte{0x41}, key+sg+40))
+			for bi, o := range offs {
+				if mask&(1<<bi) != 0 && o+4 <= len(h) {
+					copy(h[o:], "PK\x03\x04")
+				}
+			}
+			add("gen:crx-layout", h)
+		}
+	}
+	// the fat magic shared by Java class files and Mach-O fat binaries, with every kind of eighth byte
+	for _, b7 := range []byte{0x00, 0x01, 0x13, 0x14, 0x19, 0x1E, 0x1F, 0x20, 0x34, 0x41, 0xFF} {
+		add("gen:cafebabe", []byte{0xCA, 0xFE, 0xBA, 0xBE, 0, 0, 0, b7, 0, 0x10, 0, 0, 0, 0, 0, 0})
+	}
 	// OLE
 	clsids := map[string][]byte{
 		"doc": {0x06, 0x09, 0x02, 0x00, 0x00, 0x00, 0x00, 0x00, 0xc0, 0x00, 0x00, 0x00, 0x00, 0x00, 0x00, 0x46},
@@ -455,3 +474,5 @@ func cutPoints(n int, dense int) []int {
 	sort.Ints(out)
 	return out
 }
+
+func le32(v uint32) []byte { return []byte{byte(v), byte(v >> 8), byte(v >> 16), byte(v >> 24)} }
